@@ -152,7 +152,13 @@ impl<'a> Runner<'a> {
                 let hit = { let h = self.hub.lock().unwrap(); h.trace.len() > before && h.trace.last().map(|l| l.starts_with(&prefix)).unwrap_or(false) };
                 if hit {
                     if storage {
-                        if let Some(st) = self.storage.clone() { if let Some(g) = st.try_lock() { self.contended += 1; self.hub.lock().unwrap().embedder_lock = true; let _ = self.poll_stream_once(); self.hub.lock().unwrap().embedder_lock = false; drop(g); } }
+                        if let Some(st) = self.storage.clone() { if let Some(g) = st.try_lock() {
+                            self.contended += 1; self.hub.lock().unwrap().embedder_lock = true; let _ = self.poll_stream_once(); self.hub.lock().unwrap().embedder_lock = false;
+                            // lock order (documented on the struct: storage first): while the embedder holds the storage lock the machine
+                            // must not sit on the app-set lock — an embedder that goes on to take the app set would deadlock with it
+                            if self.app_set.as_ref().map(|a| a.try_lock().is_none()).unwrap_or(false) { self.hub.lock().unwrap().log("L held appset while waiting for storage".into()); }
+                            drop(g);
+                        } }
                     } else if let Some(a) = self.app_set.clone() { if let Some(g) = a.try_lock() { self.contended += 1; self.hub.lock().unwrap().embedder_lock = true; let _ = self.poll_stream_once(); self.hub.lock().unwrap().embedder_lock = false; drop(g); } }
                 }
             }
@@ -247,6 +253,18 @@ impl<'a> Runner<'a> {
                     if let Some((id, od)) = race { self.submit_ctl(id, od); }
                 }
                 Some(Step::Race(id, od)) => { self.submit_ctl(id, od); }
+                Some(Step::Ctl2(id1, od1, id2, od2)) => {
+                    // both are in the channel before the machine is polled (two clones of the handle)
+                    if let Some(h) = &self.handle {
+                        for (id, od) in [(id1, od1), (id2, od2)] {
+                            let mut h = h.clone();
+                            let opts = CheckOptions { source: if od { InstallSource::OnDemand } else { InstallSource::ScheduledTask } };
+                            self.ctls.push(Ctl { id, fut: Box::pin(async move { h.start_update_check(opts).await }), done: false });
+                        }
+                        self.poll_ctls();
+                    }
+                }
+                Some(Step::CtlQueued(..)) => {}
                 Some(Step::FireCtl(i, id)) => {
                     {
                         let mut h = self.hub.lock().unwrap();
